@@ -11,8 +11,9 @@
     Entity._delete_ (relationship part)           -> delete
   including the do/undo structure: every mutation for which the code registers an undo closure pushes the
   inverse on `St.trail`; mutations the code performs WITHOUT registering an inverse are performed without one
-  here too (`rewriteRow` in `setCollCore`, the direct `_vals_` writes of `Entity.__init__`); a failing top-level
-  call runs the trail newest-first exactly as `for undo_func in reversed(undo_funcs): undo_func()`.
+  here too (the direct `_vals_` writes of `Entity.__init__` to the object under construction, the collection
+  rewrites that follow the `try` block of a user call); a failing top-level call runs the trail newest-first
+  exactly as `for undo_func in reversed(undo_funcs): undo_func()`.
 
   Sections: 1 schema · 2 object store · 3 undo trail · 4 result monad · 5 per-attribute procedures ·
             6 collection procedures · 7 delete · 8 top-level calls · 9 operations and `step`.
@@ -133,14 +134,15 @@ inductive Undo
   | ref (o : ObjId) (a : Attr) (old : Option ObjId)   -- Attribute.__set__: `obj._vals_[attr] = old_val`
   | memDel (o : ObjId) (a : Attr) (x : ObjId)          -- Set.reverse_add: `setdata.remove(item)`
   | memAdd (o : ObjId) (a : Attr) (x : ObjId)          -- Set.reverse_remove: `setdata.add(item)`
+  | row (o : ObjId) (a : Attr) (old : ObjId → Bool)    -- Set.__set__ (reverse call): `setdata.clear(); setdata.update(old_items)`
   | status (o : ObjId) (old : Bool)                    -- Entity._delete_: `obj._status_ = status`
   | created (n : Nat)                                  -- _get_from_identity_map_: `cache.objects.discard(obj)`
-deriving Repr
 
 def undo1 (s : Store) : Undo → Store
   | .ref o a old => s.setRef o a old
   | .memDel o a x => s.setMem o a x false
   | .memAdd o a x => s.setMem o a x true
+  | .row o a old => s.setRow o a old
   | .status o old => s.setAlive o old
   | .created n => { (s.setAlive n false) with n := n }
 
@@ -153,10 +155,6 @@ def undoAll : List Undo → Store → Store
 structure St where
   store : Store
   trail : List Undo := []
-  /-- ghost: an UNLOGGED mutation changed a row of an object that existed before the call -/
-  dirty : Bool := false
-  /-- ghost: number of objects when the call started -/
-  base : Nat
 
 /-! ## 4. Result monad -/
 
@@ -240,12 +238,11 @@ def attrSetRev (sch : Schema) (o : ObjId) (a : Attr) (x : ObjId) (st : St) : Res
 
 /-! ## 6. Collection procedures -/
 
-/-- `setdata.clear(); setdata |= new_items` — the code registers NO undo for this.  `isRev` = called with `undo_funcs`
-    (from `_delete_` / `__init__`), i.e. a later failure of the same top-level call is possible. -/
+/-- `setdata.clear(); setdata |= new_items`.  `isRev` = called with `undo_funcs` (from `_delete_` / `__init__`): only then a
+    later failure of the same user call is possible, and only then the code registers the inverse. -/
 def rewriteRow (isRev : Bool) (o : ObjId) (c : Attr) (f : ObjId → Bool) (st : St) : St :=
-  let changed := (List.range st.store.n).any fun x => st.store.mem o c x != f x
-  { st with store := st.store.setRow o c f
-            dirty := st.dirty || (isRev && decide (o < st.base) && changed) }
+  let st := if isRev then st.log (.row o c (st.store.mem o c)) else st
+  st.setStore (st.store.setRow o c f)
 
 /-- `Set.__set__(attr=c, obj=o, new_items, undo_funcs)`; `del` is `Entity._delete_` (cascade branch). -/
 def setCollCore (sch : Schema) (del : ObjId → St → Res) (isRev : Bool) (o : ObjId) (c : Attr)
@@ -301,7 +298,27 @@ def delete (sch : Schema) : Nat → ObjId → St → Res
 
 /-! ## 8. Top-level calls -/
 
-/-- `Attribute.__set__(obj=o, new_val=v)` called by the user (`is_reverse_call = False`), with `update_reverse` inlined -/
+/-- `Attribute.update_reverse(attr=a, obj=o, old_val, new_val, undo_funcs)` (`d`/`rd` = declarations of `a` / `a.reverse`) -/
+def updateReverse (sch : Schema) (fuel : Nat) (d rd : Side) (o : ObjId) (a : Attr) (old v : Option ObjId) (st : St) : Res :=
+  if !rd.isColl then
+    let r := match old with
+      | none => Res.ok st
+      | some u =>
+        if d.cascade then delete sch fuel u st                               -- old_val._delete_(undo_funcs)
+        else if rd.required then .err .constraintError st                    -- Cannot unlink ... attribute is required
+        else attrClearRev sch u (sch.rev a) st                               -- reverse.__set__(old_val, None, undo_funcs)
+    r.bind fun st => match v with
+      | none => .ok st
+      | some x => attrSetRev sch x (sch.rev a) o st                          -- reverse.__set__(new_val, obj, undo_funcs)
+  else
+    let r := match old with
+      | none => Res.ok st
+      | some u => reverseRemove (sch.rev a) [u] o st
+    r.bind fun st => match v with
+      | none => .ok st
+      | some x => reverseAdd (sch.rev a) [x] o st
+
+/-- `Attribute.__set__(obj=o, new_val=v)` called by the user (`is_reverse_call = False`) -/
 def attrSetTop (sch : Schema) (fuel : Nat) (o : ObjId) (a : Attr) (v : Option ObjId) (st : St) : Res :=
   if !st.store.alive o then .err .objectDeleted st else
   match sch.side a, sch.side (sch.rev a) with
@@ -309,24 +326,7 @@ def attrSetTop (sch : Schema) (fuel : Nat) (o : ObjId) (a : Attr) (v : Option Ob
     if v.isNone && d.required then .err .valueError st else
     let old := st.store.ref o a
     if old = v then .ok (st.log (.ref o a old)) else
-    let st := (st.setStore (st.store.setRef o a v)).log (.ref o a old)
-    if !rd.isColl then
-      let r := match old with
-        | none => Res.ok st
-        | some u =>
-          if d.cascade then delete sch fuel u st                             -- old_val._delete_(undo_funcs)
-          else if rd.required then .err .constraintError st
-          else attrClearRev sch u (sch.rev a) st
-      r.bind fun st => match v with
-        | none => .ok st
-        | some x => attrSetRev sch x (sch.rev a) o st
-    else
-      let r := match old with
-        | none => Res.ok st
-        | some u => reverseRemove (sch.rev a) [u] o st
-      r.bind fun st => match v with
-        | none => .ok st
-        | some x => reverseAdd (sch.rev a) [x] o st
+    updateReverse sch fuel d rd o a old v ((st.setStore (st.store.setRef o a v)).log (.ref o a old))
   | _, _ => .err .noSuchAttr st
 
 /-- `SetInstance.add(new_items)` -/
@@ -384,12 +384,8 @@ def create (sch : Schema) (fuel : Nat) (e : EntId) (vals : List (Attr × Val)) (
     | some d, some rd =>
       if !d.isColl then
         let v := lookupRef vals a
-        let st := st.setStore (st.store.setRef id a v)                      -- obj._vals_[attr] = val  (no undo)
-        match v with
-        | none => .ok st
-        | some x =>                                                         -- attr.update_reverse(obj, None, val, undo_funcs)
-          if rd.isColl then reverseAdd (sch.rev a) [x] id st
-          else attrSetRev sch x (sch.rev a) id st
+        -- obj._vals_[attr] = val  (no undo);  attr.update_reverse(obj, None, val, undo_funcs)
+        updateReverse sch fuel d rd id a none v (st.setStore (st.store.setRef id a v))
       else setCollCore sch (fun x => delete sch fuel x) true id a (lookupColl vals a) st   -- attr.__set__(obj, val, undo_funcs)
     | _, _ => .err .noSuchAttr st) attrs st
 
@@ -492,14 +488,12 @@ def run1 (sch : Schema) (op : Op) (st : St) : Res :=
 structure Outcome where
   store : Store
   err : Option Err
-  /-- the call failed after an unlogged mutation of a pre-existing object (the undo cannot restore it) -/
-  dirty : Bool
 
 /-- one user call including `except: for undo_func in reversed(undo_funcs): undo_func(); raise` -/
 def stepO (sch : Schema) (s : Store) (op : Op) : Outcome :=
-  match run1 sch op { store := s, base := s.n } with
-  | .ok st => ⟨st.store, none, false⟩
-  | .err e st => ⟨undoAll st.trail st.store, some e, st.dirty⟩
+  match run1 sch op { store := s } with
+  | .ok st => ⟨st.store, none⟩
+  | .err e st => ⟨undoAll st.trail st.store, some e⟩
 
 def step (sch : Schema) (s : Store) (op : Op) : Store := (stepO sch s op).store
 
